@@ -157,6 +157,22 @@ func init() {
 		"1x3": {{ev(0, 0, false), ev(1, 0, true), ev(2, 0, false)}},
 		"2x2": {{ev(0, 0, false), ev(2, 0, false)}, {ev(1, 1, false), ev(3, 1, true)}},
 	}
+	// the rolling-file LOGGER (owns its appenders; with separate=true a second appender takes WARN and above):
+	// INFO and ERROR events, crash at every point
+	mixed := [][]c03Event{{ev(0, 0, false), {tag: 1, payload: c03Payload(1, false), err: true}, {tag: 1, payload: c03Payload(2, true), err: true}, ev(3, 0, false)}}
+	for _, layout := range []string{"TextLayout", "JSONLayout"} {
+		for _, sink := range []string{"rolling-logger", "rolling-logger+separate"} {
+			layout, sink := layout, sink
+			register("C20", fmt.Sprintf("c20/%s/%s/1x4-info+error", sink, layout), "qt", func(tier string) *zzvrt.Scenario {
+				b := zzvrt.Bounds{Preempt: 1, Horizon: 5000}
+				b.Env[zzvrt.SeamCrash] = 1
+				if tier == "thorough" {
+					b.Env[zzvrt.SeamTick] = 1
+				}
+				return crashScenario(c03Cfg{layout: layout, sink: sink, threads: mixed}, b)
+			})
+		}
+	}
 	for _, layout := range []string{"TextLayout", "JSONLayout"} {
 		for _, sink := range []string{"console", "file", "rolling"} {
 			for _, shape := range []string{"1x3", "2x2"} {
